@@ -254,8 +254,12 @@ void MEDDLY::inter_mt::_compute(int L, unsigned in,
         }
     }
 
-    if ((A == B) && (arg1F==arg2F)) {
+    if ( ((A == B) && (arg1F==arg2F))
+        || (arg1F->isTerminalNode(A) && arg2F->isTerminalNode(B)) )
+    {
         // A and A = A
+        // (also both terminal TRUE, in different forests: neither is
+        // fully reduced here, so both stand for the same pattern)
         edge_value dummy;
         dummy.set();
         MEDDLY_DCASSERT(copy_arg1res);
